@@ -4257,7 +4257,12 @@ class Wallet(object):
                                   address))
             output_arr = []
             for o in t['outputs']:
-                output_arr.append((o['address'], int(o['value'])))
+                if o['address'] or not o.get('script'):
+                    output_arr.append((o['address'], int(o['value'])))
+                else:
+                    # An output without address (a data output, a non-standard script) is its locking script
+                    output_arr.append(Output(int(o['value']), lock_script=bytes.fromhex(o['script']), network=t['network'],
+                                             strict=False))
             rt = self.transaction_create(output_arr, input_arr, fee=t['fee'], network=t['network'],
                                          random_output_order=False)
             rt.block_height = t['block_height']
